@@ -43,7 +43,7 @@ Inductive phase :=
 | PDecide (cause : option err) (clean : bool)     (* a cause is known (first dial error / task result after its clean-up) *)
 | PReinit (j : nat) (t0 : Z)                      (* re-establishing: j attempts made, the last one (or the cause) at t0 *)
 | PExhausted                                      (* the 50th attempt failed *)
-| PConn (k : N)                                   (* connection k handed out *)
+| PConn                                           (* a connection was handed out *)
 | PRan (k : N) (r : option err)                   (* the task ran on k and returned r; k not yet cleaned up *)
 | PDone.
 
@@ -64,7 +64,7 @@ Definition reinit_step (h : hst) (j : nat) (t0 : Z) (t : Z) (ev : event) : optio
       if (Nat.ltb j spec_attempts) && (t =? t0 + spec_delay j)
          && (match h_cancel h with Some _ => Nat.eqb j 0 | None => true end) then
         match r with
-        | None => Some (mkH (PConn (h_next h)) (h_cancel h) t (h_next h + 1)%N)
+        | None => Some (mkH PConn (h_cancel h) t (h_next h))
         | Some _ =>
             if Nat.eqb (S j) spec_attempts then Some (mkH PExhausted (h_cancel h) t (h_next h))
             else Some (mkH (PReinit (S j) t) (h_cancel h) t (h_next h))
@@ -95,7 +95,7 @@ Definition hstep (h : hst) (te : Z * event) : option hst :=
     match h_phase h with
     | PFirst =>
         match ev with
-        | DialAttempt None => if t =? 0 then Some (mkH (PConn (h_next h)) (h_cancel h) t (h_next h + 1)%N) else None
+        | DialAttempt None => if t =? 0 then Some (mkH PConn (h_cancel h) t (h_next h)) else None
         | DialAttempt (Some e) => if t =? 0 then Some (mkH (PDecide (Some e) true) (h_cancel h) t (h_next h)) else None
         | _ => None
         end
@@ -127,9 +127,10 @@ Definition hstep (h : hst) (te : Z * event) : option hst :=
         | Return v => if is_err_ret v && (t =? h_last h) then Some (mkH PDone (h_cancel h) t (h_next h)) else None
         | _ => None
         end
-    | PConn k =>
+    | PConn =>
         match ev with
-        | Task k' r => if N.eqb k k' && (t =? h_last h) then Some (mkH (PRan k r) (h_cancel h) t (h_next h)) else None
+        (* the task runs on a connection that was never used before *)
+        | Task k r => if N.leb (h_next h) k && (t =? h_last h) then Some (mkH (PRan k r) (h_cancel h) t (k + 1)%N) else None
         | _ => None
         end
     | PRan k r =>
